@@ -70,7 +70,6 @@ Done ==
   /\ LET f == IF IsRun THEN Failing(JudgeRun(T)) ELSE Failing(JudgeSel(T))
          d == IF IsRun
               THEN (IF NSnaps > 0 /\ it # n THEN {"fewer_snapshots_than_iterations"} ELSE {})
-                   \cup (IF NSnaps > 0 /\ T.ret = 1 /\ T.bitsV # T.bitsA THEN {"visualize_path_returns_other_layout"} ELSE {})
               ELSE SelDrift(T)
      IN PrintT(ToJson([tag |-> "VERDICT", id |-> T.id,
                        fails |-> fails \cup { <<l, c>> : c \in f },
